@@ -23,6 +23,12 @@ name that folds to a literal (including `"m" + side`, "%s_x" % name, f-strings a
 spellings are one value: np.s_[a:b] / slice(a, b) / a:b, np.newaxis / None, X[:, c][i] / X[i, c] (loads and stores through a column view),
 x[:n][k] / x[k], np.nonzero(m) / m.nonzero() / np.where(m), np.flatnonzero(m) / m.nonzero()[0]; reductions over a literal pair
 (np.fmax.reduce([a, b]), functools.reduce(f, (a, b)), np.sum([a, b], axis=0), sum((a, b))) are the binary application.
+
+Loops over data are evaluated once on a generic element `('elem', x)` whatever their form: `for e in x`, over `x.tolist()` / `list(x)` / `iter(x)`,
+`for k in range(len(x)): e = x[k]`, `for k, e in enumerate(x)`, `k = 0; while k < x.size: ...; k += 1`, `for e, f in zip(x, [g(u) for u in x])`
+(lockstep: f is g(e)); `int(e)` of an index is the index.  `match` statements with literal / singleton / alternative / wildcard patterns are the
+if / elif chain of their tests.  With `loadevents=True` every subscript load is recorded as an event so that a rule can tell which stores into
+an object a load has seen.
 """
 from __future__ import annotations
 
